@@ -16,6 +16,24 @@ TEXTS = ["hello", "hello world", ":colon start", "a:b c", "", "tab\there", "√ºn√
 KEYS = ["k1", "k2", "sesame"]
 
 
+# scenes that belong to a profile's subject are drawn more often there (half of the scenes of that profile)
+SCENE_BIAS = {
+    "kti": ["kick_repeat", "kick_ranks", "topic_lock", "invite_key", "invite_recreate", "invite_ban", "limit_invite", "halfop_mode"],
+    "mode": ["ranks_ladder", "halfop_mode", "topic_lock", "moderated_prefix", "ban_case", "invite_key", "limit_invite", "kick_ranks"],
+    "nick": ["voice_rename", "wallops_rename", "case_twins", "rename_masks", "pre_rename", "ban_case"],
+    "join": ["invite_key", "invite_recreate", "invite_ban", "limit_invite", "quota_invisible", "rejoin_list", "ban_case", "case_twins"],
+    "member": ["rejoin_list", "kick_repeat", "voice_rename", "kick_ranks", "pre_rename", "ranks_ladder"],
+    "chanlife": ["invite_recreate", "pre_rename", "kick_repeat", "rejoin_list", "kick_ranks"],
+    "secret": ["secret_whois", "quota_invisible", "rename_masks", "case_twins"],
+    "oper": ["oper_cycle", "wallops_rename", "case_twins"],
+    "stats": ["oper_cycle", "quota_invisible", "wallops_rename"],
+    "endings": ["wallops_rename", "oper_cycle", "invite_recreate", "pre_rename"],
+    "msg": ["flood_targets", "voice_rename", "moderated_prefix", "case_twins", "ban_case"],
+    "speak": ["moderated_prefix", "ban_case", "case_twins", "voice_rename", "flood_targets"],
+    "general": ["kick_repeat", "halfop_mode", "kick_ranks"],
+}
+
+
 def long_text(r):
     """longer than the *LEN values the server advertises in 005 (1000; nicks 200) but inside the 2000-byte line limit;
     multi-byte characters are placed so that byte offsets such as 1000 fall inside a character"""
@@ -74,7 +92,7 @@ class Gen:
             w = {k: v * 0.15 for k, v in w.items()}
             w.update(over)
         self.weights = w
-        self.scene_rate = 0.0 if profile in ("fuzz", "pingpong") else (0.09 if profile == "reg" else 0.035)
+        self.scene_rate = 0.0 if profile in ("fuzz", "pingpong") else (0.09 if profile == "reg" else 0.055)
 
     # ------------------------------------------------------------------ config
     def gen_cfg(self):
@@ -441,6 +459,9 @@ class Gen:
                       "voice_rename", "wallops_rename", "flood_targets", "limit_invite", "case_twins", "kick_ranks",
                       "secret_whois", "oper_cycle", "moderated_prefix", "ban_case", "rejoin_list", "topic_lock",
                       "rename_masks", "kick_repeat", "pre_rename"])
+        bias = SCENE_BIAS.get(self.profile)
+        if bias and r.random() < 0.5:
+            k = r.choice(bias)
         L = self.line
         if k == "kick_repeat":
             # a target named more than once in one KICK, adjacent or not, with kickable / refused ones in between
